@@ -87,15 +87,19 @@ MonStep(m, e, l) ==
                    THEN V([m EXCEPT !.pend = [i \in 1..Len(@) |-> [@[i] EXCEPT !.dl = -1]]], "late", l,
                           "a request has no outcome after the response timeouts its protocol steps allow")
                    ELSE m
+        \* an accepted non-final fragment of a read series is one more protocol step: one more response timeout
+        mExt == IF e.k = "rx" /\ ~e.rx.noconn /\ e.rx.fc # -1 /\ Answers(m.out, e.rx) /\ m.out.read /\ ~e.rx.fin
+                  THEN [mLate EXCEPT !.pend = [i \in 1..Len(@) |-> IF @[i].dl >= 0 THEN [@[i] EXCEPT !.dl = @ + Rt(m.cfg, m.out.a) + 5] ELSE @[i]]]
+                  ELSE mLate
         \* a new request
         mReq == IF e.k = "req" THEN
                     LET r == e.req
-                        ahead == SelectSeq(mLate.pend, LAMBDA x : x.kind \in TaskKinds)
+                        ahead == SelectSeq(mExt.pend, LAMBDA x : x.kind \in TaskKinds)
                         budget == (Steps([kind |-> r.kind, mode |-> r.mode]) + FoldLeft(LAMBDA acc, x : acc + Steps(x), 0, ahead))
                                    * (Rt(m.cfg, r.a) + 5) + 5
                         dl == IF Quiet(m.cfg) /\ Len(m.cfg.assocs) = 1 /\ r.kind \in TaskKinds THEN e.t + budget ELSE -1
-                    IN [mLate EXCEPT !.pend = Append(@, [id |-> r.id, kind |-> r.kind, mode |-> r.mode, a |-> r.a, t |-> e.t, dl |-> dl])]
-                ELSE mLate
+                    IN [mExt EXCEPT !.pend = Append(@, [id |-> r.id, kind |-> r.kind, mode |-> r.mode, a |-> r.a, t |-> e.t, dl |-> dl])]
+                ELSE mExt
         \* OPERATE only after a faithful SELECT echo
         ops == SelectSeq(e.tx, LAMBDA x : x.fc = 4)
         echoed == e.k = "rx" /\ Answers(m.out, e.rx) /\ m.out.fc = 3 /\ e.rx.body = "echo"
@@ -124,7 +128,12 @@ MonStep(m, e, l) ==
                    [] e.k \in {"enable", "cut"} -> FALSE
                    [] OTHER -> m.pipe
         en1 == CASE e.k = "enable" -> TRUE [] e.k = "disable" -> FALSE [] OTHER -> m.en
-    IN [mC EXCEPT !.out = TrackOut(m.out, e), !.up = up1, !.pipe = pipe1, !.en = en1]
+        \* still pending at the end of the line although its deadline lies within it
+        mL == IF \E i \in 1..Len(mC.pend) : mC.pend[i].dl >= 0 /\ mC.pend[i].dl < LineEnd(e)
+                THEN V([mC EXCEPT !.pend = [i \in 1..Len(@) |-> IF @[i].dl < LineEnd(e) THEN [@[i] EXCEPT !.dl = -1] ELSE @[i]]], "late", l,
+                       "a request has no outcome after the response timeouts its protocol steps allow")
+                ELSE mC
+    IN [mL EXCEPT !.out = TrackOut(m.out, e), !.up = up1, !.pipe = pipe1, !.en = en1]
 
 Claimed == {"C16"}
 =============================================================================
